@@ -47,7 +47,8 @@ class LifecycleRun:
 
         fam = [s for s in self.names if s in HEX32]
         shadowed = self.default in fam[1:]  # its hashes are read as an earlier scheme's: the dummy hash is verified by that one
-        self.countable = self.default != self.disabled and not self.default.startswith("ldap_md5_crypt") and not shadowed
+        self.countable = (self.default != self.disabled and not self.default.startswith("ldap_md5_crypt") and not shadowed
+                          and self.default not in ("plaintext", "ldap_plaintext"))
         if self.countable:
             objs = [make_counting(getattr(passlib.hash, s), self.counter) if s == self.default else s for s in self.names]
             policy["schemes"] = objs
@@ -79,7 +80,7 @@ class LifecycleRun:
             # of several formats that claim the same strings the context reads a record as the first one configured
             scheme = [s for s in self.names if s in HEX32][0]
         h = self._hash(scheme, u["pw"])
-        rec = {"pw": u["pw"], "orig": h}
+        rec = {"pw": u["pw"], "orig": h, "scheme": scheme}
         if shape == "hash":
             rec["cur"] = h
         elif shape == "none":
@@ -114,16 +115,29 @@ class LifecycleRun:
             return ("disabled", None)  # django_disabled never embeds the original
         return ("enabled", s)
 
+    def attribute(self, s):
+        """the attribution rule, evaluated WITHOUT the context: the first configured scheme whose own identify() claims s"""
+        for n in self.names:
+            r = _call(getattr(self.ph, n).identify, s)
+            if r == ("ok", True):
+                return n
+        return None
+
     def attributable(self, s):
         """the model only speaks about strings some scheme of the context claims -- and, for strings the grammar reads as
-        disabled, only when the context attributes them to the disabled-account scheme ('*' + 40 hex digits is also a
-        mysql41 hash: such records are ambiguous by construction and left out)"""
+        disabled, only when the attribution rule gives them to the disabled-account scheme ('*' + 40 hex digits is also a
+        mysql41 hash: such records are ambiguous by construction and left out). The context's own identify() is not
+        consulted for this decision; it is judged against it."""
+        a = self.attribute(s)
         r = _call(self.cc.identify, s)
-        if r[0] != "ok" or r[1] is None:
+        self.ctx.check(r == ("ok", a) or (a is None and r[0] == "ok" and r[1] is None), "C18", "record-attributed-to-wrong-scheme",
+                       lambda: f"identify({s!r}) -> {r[:2]}; first configured scheme that claims it: {a} (order {self.names})",
+                       scheme=self.disabled, want=str(a))
+        if a is None:
             return False
         if self.parse(s)[0] == "disabled":
-            return r[1] == self.disabled
-        return r[1] != self.disabled
+            return a == self.disabled
+        return a != self.disabled
 
     # -- ops -------------------------------------------------------------------------------------------------
     def run(self, ops):
@@ -215,8 +229,13 @@ class LifecycleRun:
         r = _call(self.cc.verify, pw, cur)
         if st[0] == "disabled":
             ctx.check(r == ("ok", False), "C18", "disabled-record-verifies", f"verify({pw!r}, {cur!r}) -> {r[:2]}", scheme=self.disabled)
-        else:
+        elif cur == rec["orig"] and self.attribute(cur) == rec["scheme"]:
             ctx.check(r == ("ok", pw == rec["pw"]), "C18", "enabled-record-login", f"verify({pw!r}, {cur!r}) -> {r[:2]} (password is {rec['pw']!r})")
+        else:
+            # a string the grammar reads as an ordinary record but which is not the user's own hash (e.g. '' or '*...' next to
+            # django_disabled with a plaintext scheme listed), or a plaintext record an earlier scheme claims (a 2-character
+            # password is a des_crypt salt string): the answer is that scheme's business, nothing is judged here
+            pass
 
     def op_login(self, op, rec):
         self._login(rec, rec["pw"])
